@@ -144,6 +144,12 @@ func buildCfg(cf *ConfigFile, h *HarnessDef, tier string, twin bool) (*RunCfg, e
 		}
 		cfg.Twin = true
 	}
+	// experiments only (never used by a registered command): override run parameters from the environment
+	if ov := os.Getenv("GOSYM_OVERRIDE"); ov != "" {
+		if err := json.Unmarshal([]byte(ov), cfg); err != nil {
+			return nil, err
+		}
+	}
 	cfg.Name = h.Name
 	if twin {
 		cfg.Name += "~twin"
